@@ -37,6 +37,7 @@ BOOL_NAMES = ["a", "b", "avb", "nota", "andy", "notify", "_x", "orb", "is_v", "v
 NUM_NAMES = ["x", "value", "vv", "v1", "nova", "order", "y"]
 ANY_VALUES = [True, False, 0, 1, "", "s", [], [0], None, 2.5, 0.0, {}, {"k": 1}, {"$t": []}, {"$t": [0]}]
 NUM_VALUES = [0, 1, 2, 10, -1, 1.5, 0.0, True, False, 3]
+UNORDERABLE = [None, "s", "1", [0], {"$t": [0]}, 2.5]
 UID = itertools.count()
 PREC = {"or": 1, "and": 2, "not": 3, "cmp": 4, "name": 5, "const": 5}
 
@@ -452,6 +453,8 @@ def run_case(case):
                         if t:
                             want = False
                             break
+            except TypeError:
+                want = "TypeError"  # Python itself refuses the comparison: so must the guard, at the same point of the evaluation
             except Exception as ex:
                 from ..core import HarnessError
 
@@ -462,8 +465,14 @@ def run_case(case):
             try:
                 sm.send("go")
             except Exception as ex:
+                if want == "TypeError" and isinstance(ex, TypeError) and sm.current_state.id == "s1":
+                    labels.add("python-raises-TypeError")
+                    nontrivial = True
+                    continue
                 return outcome(False, "C08:crash-at-send", f"{[e['lib'] for e in cond + unless]!r} with {env!r}: {type(ex).__name__}: {ex}", labels=labels)
             got = sm.current_state.id == "s2"
+            if want == "TypeError":
+                return outcome(False, "C08:wrong-truth-value", f"cond={[e['lib'] for e in cond]!r} unless={[e['lib'] for e in unless]!r} (python: {[e['py'] for e in cond + unless]!r}) with {env!r}: Python raises TypeError (unorderable operands), the guard answered and fired={got}", labels=labels)
             if got != want:
                 return outcome(False, "C08:wrong-truth-value", f"cond={[e['lib'] for e in cond]!r} unless={[e['lib'] for e in unless]!r} (python: {[e['py'] for e in cond + unless]!r}) with {env!r}: fired={got}, Python says {want}", labels=labels)
             if len(cond) + len(unless) == 1 and all(len(p) == 1 for p in providers.values()):
@@ -472,8 +481,12 @@ def run_case(case):
                     return outcome(False, "C08:evaluation-order", f"{(cond + unless)[0]['lib']!r} with {env!r}: names read {lib_reads}, Python reads {collapse(py_reads)}", labels=labels)
                 labels.add("reads-compared")
             for e in cond + unless:
-                f = flat_eval(e["tree"], env)
-                if f is not None and f != python_truth(e["py"], env, ())[0]:
+                try:
+                    f = flat_eval(e["tree"], env)
+                    differs = f is not None and f != python_truth(e["py"], env, ())[0]
+                except TypeError:
+                    continue  # an entry that was short-circuited away and cannot be evaluated on its own (unorderable operands)
+                if differs:
                     nontrivial = True
                     labels.add("precedence-or-short-circuit-matters")
         if len(cond) + len(unless) > 1:
@@ -606,6 +619,10 @@ def positive(draw, tier):
         for n, provs in providers.items():
             for p in provs:
                 env[f"{n}@{p}"] = draw(st.sampled_from(STR_VALUES if n in STR_NAMES else NUM_VALUES if (used[n] or n in NUM_NAMES) else ANY_VALUES))
+                if used[n] and draw(st.integers(0, 9)) == 0:
+                    # "values of any type": an ordering comparison of unorderable operands raises TypeError in Python, and the
+                    # expression "evaluates exactly as Python evaluates it" (added after round 6, C08k)
+                    env[f"{n}@{p}"] = draw(st.sampled_from(UNORDERABLE))
         vals.append(env)
     return {"kind": "positive", "cond": cond, "unless": unless, "providers": providers, "kinds": kinds, "valuations": vals,
             "decl": draw(st.sampled_from(["to", "to", "from", "any"])), "falsy": [p for p in ("model", "l0") if draw(st.integers(0, 5)) == 0]}
